@@ -151,23 +151,22 @@ def relevant_hyps(hyps, goal):
 
 def check_one(hyps, goal, z3_ms, cvc5_ms, watch=None):
     t0 = time.time()
-    # first attempt: only the hypotheses in the goal's vocabulary (sound: fewer hypotheses); a short budget, and only
-    # `unsat` is used from it
-    sub = relevant_hyps(hyps, goal)
-    if len(sub) < len(hyps):
-        s0 = Solver()
-        s0.set('timeout', max(3000, min(z3_ms // 3, 12000)))
-        for h in sub:
-            s0.add(h)
-        s0.add(Not(goal))
-        if s0.check() == unsat:
-            return 'unsat', 'z3', time.time() - t0, None
-    # second attempt: without the hypotheses that define large literal tables (also a subset)
+    # Attempts on subsets of the hypotheses (sound: fewer hypotheses; only `unsat` is used from them).  Hypotheses that
+    # define large literal tables are left out first - they make z3's sequence solver erratic - together with those
+    # outside the goal's vocabulary; then only the tables are left out; then only the foreign vocabulary.
     light = [h for h in hyps if (_ufuns(h) is not None) and _SIZE[h.get_id()] <= BIG]
-    if len(light) < len(hyps):
+    sub = relevant_hyps(hyps, goal)
+    both = [h for h in sub if _SIZE[h.get_id()] <= BIG]
+    tried = set()
+    for subset, budget in ((both, max(3000, min(z3_ms // 3, 12000))), (light, max(5000, min(z3_ms // 2, 20000))),
+                           (sub, max(3000, min(z3_ms // 3, 12000)))):
+        key = len(subset)
+        if len(subset) == len(hyps) or key in tried:
+            continue
+        tried.add(key)
         s0 = Solver()
-        s0.set('timeout', max(5000, min(z3_ms // 2, 20000)))
-        for h in light:
+        s0.set('timeout', budget)
+        for h in subset:
             s0.add(h)
         s0.add(Not(goal))
         if s0.check() == unsat:
